@@ -359,10 +359,18 @@ func (m *machine) request(o op, suffix string) (res result) {
 				r = m.sh.DoRequest(req)
 			case m.reqNo%3 == 2 && (o.Verb == http.MethodPost || o.Verb == http.MethodPut || o.Verb == http.MethodPatch):
 				ctx, cancel := m.sh.GetContextTimeout()
+				if o.FailAt >= 0 && o.FailAt < len(m.model) && m.reqNo%2 == 0 {
+					cancel()
+				}
 				r = m.sh.DoNewRequestWithBodyOptions(ctx, http.Header{"X-Own": {"1"}}, o.Verb, rawURL, strings.NewReader(`{"a":3}`), "application/json")
 				cancel()
 			case m.reqNo%3 == 2:
 				ctx, cancel := m.sh.GetContextTimeout()
+				if o.FailAt >= 0 && o.FailAt < len(m.model) && m.reqNo%2 == 0 {
+					// the caller's context is already done when an interceptor refuses the request: the caller
+					// still learns the interceptor's error
+					cancel()
+				}
 				r = m.sh.DoNewRequest(ctx, http.Header{"X-Own": {"1"}}, o.Verb, rawURL)
 				cancel()
 			}
